@@ -1867,6 +1867,10 @@ SPECS = [
          header="def pauseWriting (s : Srv.Flow.FSt) : Srv.Flow.FSt × Unit :=", state_type="Srv.Flow.FSt",
          fields={"_unsent": "unsent", "_write_paused": "paused", "_response_sent": "started"},
          types={"self._write_paused": "bool"}),
+    dict(name="aclProcessRequest", file="server/middleware.py", cls="AccessControl", func="process_request", str="nat",
+         header="def aclProcessRequest (isAllowed : Bool) : Bool × Option (List Nat) :=",
+         opaque={"self._is_allowed(client_ip)": "isAllowed"}, ret_types=["bool", "optstr"],
+         types={"self._is_allowed(client_ip)": "bool", "response": "str"}),
     dict(name="bucketInit", file="server/middleware.py", cls="TokenBucket", func="__init__", state="s", numbers="Rat", implicit_return=True,
          header="def bucketInit (s : BucketSt) (now capacity refill_rate : Rat) : BucketSt × Unit :=",
          opaque={"time.monotonic()": "now", "float(capacity)": "capacity"}, types={"capacity": "num", "refill_rate": "num"}),
